@@ -13,6 +13,7 @@ mod m_chars;
 mod m_rangeiter;
 mod m_split;
 mod m_parseint;
+mod m_cstr;
 
 use common::*;
 use rand::{rngs::SmallRng, SeedableRng};
@@ -31,6 +32,7 @@ fn replay_line(s: &mut Summary, v: &V) {
         "RangeIter" => m_rangeiter::replay(s, v),
         "Split" => m_split::replay(s, v),
         "ParseInt" => m_parseint::replay(s, v),
+        "CStr" => m_cstr::replay(s, v),
         m => panic!("kh: unknown module {m}"),
     }
 }
